@@ -330,4 +330,28 @@ def projStep (p : Proj Text) : Op Text → Proj Text
 
 def projRun (h : List (Op Text)) : Proj Text := h.foldl projStep Proj.new
 
+
+/-! ### A fragment of the analysis itself: enumeration values (known finding
+`C13-enum-next-value-overflow`)
+
+`collect_enum_type` (crates/trust-hir/src/db/queries/collector/types.rs) walks the values of an
+enumeration with `let mut next_value: i64 = 0`; a value with an explicit `:= expr` (folded by the
+collector's constant evaluator to an `i64`) takes that value, one without takes `next_value`, and
+after each value `next_value = value + 1` — a plain `+` on `i64`, which panics on overflow in the
+dev profile (DESIGN §5). -/
+
+def i64Max : Int := 9223372036854775807
+
+/-- The values assigned to an enumeration whose entries are `some v` (explicit, already folded to
+an `i64`) or `none` (implicit), starting with `next_value = next`. -/
+def enumAssign : List (Option Int) → Int → Outcome (List Int)
+  | [], _ => .ok []
+  | e :: rest, next =>
+    let value := e.getD next          -- `self.extract_enum_value(&child).unwrap_or(next_value)`
+    if value + 1 > i64Max then .panic          -- `next_value = value + 1` overflows
+    else
+      match enumAssign rest (value + 1) with
+      | .ok l => .ok (value :: l)
+      | .panic => .panic
+
 end TrustVerif.C13
